@@ -20,7 +20,9 @@ def uncps(s: str) -> str:
 def sci_value(tok: str) -> Fraction:
     """`+25e-2` → 1/4"""
     m = re.fullmatch(r"([+-])(\d+)e(-?\d+)", tok)
-    v = Fraction(int(m.group(2))) * (Fraction(10) ** int(m.group(3)))
+    # exponents far beyond the double range are clamped: the value is then ±inf / 0 for every comparison made with it
+    # (an unclamped 9-digit exponent from a mutated line would take minutes to expand)
+    v = Fraction(int(m.group(2))) * (Fraction(10) ** max(-6000, min(6000, int(m.group(3)))))
     return -v if m.group(1) == "-" else v
 
 
